@@ -1,6 +1,1656 @@
-//! C17 — not built yet.
-use crate::report::{Ctx, Reporter};
+//! C17 — the awc HTTP/1 client delivers a response body completely (as framed by Content-Length /
+//! chunked coding) or reports an error; a connection goes back to the pool only after a response
+//! that was read to its end on a persistent connection; open connections never exceed the limit.
+//!
+//! World: `awc::Client` with a custom connector that hands out in-memory connections (`SIo`) served
+//! by a scripted peer (`Net`).  The peer answers each request (identified by its target) with the
+//! bytes the case prescribes, in exactly the prescribed read segments, optionally with a `Pending`
+//! between segments, and then stays silent, half-closes (EOF) or resets at an exact byte offset.
+//! Everything runs under virtual time; the response timeouts (600 virtual seconds) turn "the client
+//! waits for bytes that will never come" into an error outcome without wall-clock waiting.
+//!
+//! Oracles
+//!  * exchange (fault enumeration): template × close at every byte offset × close kind ×
+//!    segmentation: error unless the delivered bytes form a complete message; an `Ok` body equals
+//!    the framed body exactly; a clean end of a Content-Length / chunked body before its framed end
+//!    is `short-success/<framing>`.
+//!  * pool: request i may share a connection with the previous request on it only if that response
+//!    was complete, self-delimited, persistent, read to its end by the application and not followed
+//!    by leftover bytes; every response handed to request i is the one generated for request i.
+//!  * limit: at every connection-open event (after a 3-yield connect latency that lets close tasks
+//!    already handed over by the pool run) the number of open connections is ≤ limit.
 
-pub fn run(_ctx: &Ctx, rep: &mut Reporter) {
-    rep.inconclusive("C17 monitor not built");
+use std::{
+    cell::RefCell,
+    collections::{HashMap, VecDeque},
+    fmt, io,
+    pin::Pin,
+    rc::Rc,
+    task::{Context, Poll, Waker},
+    time::Duration,
+};
+
+use actix_rt::net::{ActixStream, Ready};
+use actix_service::Service;
+use actix_tls::connect::{ConnectError, ConnectInfo, Connection};
+use bytes::Bytes;
+use futures_util::{future::LocalBoxFuture, StreamExt as _};
+use http::Uri;
+use serde::{Deserialize, Serialize};
+use serde_json::json;
+use tokio::io::{AsyncRead, AsyncWrite, ReadBuf};
+
+use crate::{
+    refmodel::h1_resp,
+    report::{guard, panic_site, Ctx, Reporter},
+    util::{esc_short, split_at_cuts, Rng},
+    world::exec::{breathe, run_virtual},
+};
+
+const RESP_TIMEOUT: Duration = Duration::from_secs(600);
+const WATCHDOG: Duration = Duration::from_secs(7200);
+const MAX_CHUNKS: usize = 200_000;
+
+mod escb {
+    use serde::{Deserialize, Deserializer, Serializer};
+
+    use crate::util::{esc, unesc};
+
+    pub fn serialize<S: Serializer>(v: &[u8], s: S) -> Result<S::Ok, S::Error> {
+        s.serialize_str(&esc(v))
+    }
+    pub fn deserialize<'de, D: Deserializer<'de>>(d: D) -> Result<Vec<u8>, D::Error> {
+        let s = String::deserialize(d)?;
+        Ok(unesc(&s))
+    }
+}
+
+// ------------------------------------------------------------------------------------------------
+// scripted peer
+// ------------------------------------------------------------------------------------------------
+
+#[derive(Clone, Copy, PartialEq, Eq, Debug, Serialize, Deserialize)]
+enum CloseKind {
+    /// keep the connection open and stay silent
+    Stay,
+    /// half-close: reads return Ok(0) after the queued bytes
+    Eof,
+    /// reads fail with ECONNRESET after the queued bytes
+    Reset,
+}
+
+impl CloseKind {
+    fn name(self) -> &'static str {
+        match self {
+            CloseKind::Stay => "stay",
+            CloseKind::Eof => "eof",
+            CloseKind::Reset => "reset",
+        }
+    }
+}
+
+#[derive(Clone, Debug)]
+struct Reply {
+    segs: Vec<Vec<u8>>,
+    /// a `Pending` (with immediate wake) before every segment but the first, and before the close
+    pace: bool,
+    close: CloseKind,
+    /// a `Pending` before the close becomes visible (the close "arrives later")
+    close_pause: bool,
+    /// bytes that follow the response as a separate, immediately readable segment
+    leftover: Option<Vec<u8>>,
+}
+
+struct Item {
+    data: Bytes,
+    pause: bool,
+}
+
+#[derive(Default)]
+struct ConnSt {
+    inq: VecDeque<Item>,
+    close: Option<CloseKind>,
+    close_pause: bool,
+    read_waker: Option<Waker>,
+    out: Vec<u8>,
+    scanned: usize,
+    targets: Vec<String>,
+    shutdown: bool,
+    dropped: bool,
+    bytes_read: usize,
+    read_pendings: u64,
+    eof_seen: bool,
+}
+
+#[derive(Default)]
+struct Net {
+    conns: Vec<ConnSt>,
+    plan: HashMap<String, Reply>,
+    gated: bool,
+    held: Vec<(usize, String)>,
+    arrivals: Vec<(usize, String)>,
+    connects: usize,
+    /// max open connections counted at open events after the connect latency (judged)
+    max_open: usize,
+    /// the same without the latency (observed only)
+    max_open_strict: usize,
+    unknown_targets: u64,
+}
+
+type NetRc = Rc<RefCell<Net>>;
+
+impl Net {
+    fn open_now(&self) -> usize {
+        self.conns.iter().filter(|c| !c.shutdown && !c.dropped).count()
+    }
+    fn enqueue(&mut self, conn: usize, r: &Reply) {
+        let c = &mut self.conns[conn];
+        let mut first = true;
+        for s in &r.segs {
+            if s.is_empty() {
+                continue;
+            }
+            c.inq.push_back(Item { data: Bytes::copy_from_slice(s), pause: r.pace && !first });
+            first = false;
+        }
+        if let Some(l) = &r.leftover {
+            c.inq.push_back(Item { data: Bytes::copy_from_slice(l), pause: false });
+        }
+        if r.close != CloseKind::Stay {
+            c.close = Some(r.close);
+            c.close_pause = r.close_pause && !first && r.leftover.is_none();
+        }
+        if let Some(w) = c.read_waker.take() {
+            w.wake();
+        }
+    }
+    fn on_request(&mut self, conn: usize, target: String) {
+        self.arrivals.push((conn, target.clone()));
+        self.conns[conn].targets.push(target.clone());
+        if self.gated {
+            self.held.push((conn, target));
+        } else {
+            self.answer(conn, &target);
+        }
+    }
+    fn answer(&mut self, conn: usize, target: &str) {
+        match self.plan.get(target).cloned() {
+            Some(r) => self.enqueue(conn, &r),
+            None => self.unknown_targets += 1,
+        }
+    }
+    /// release the held request number `k`
+    fn release_held(&mut self, k: usize) {
+        let (conn, target) = self.held.remove(k);
+        self.answer(conn, &target);
+    }
+}
+
+/// Client-side end of a scripted connection.
+struct SIo {
+    net: NetRc,
+    idx: usize,
+}
+
+impl fmt::Debug for SIo {
+    fn fmt(&self, f: &mut fmt::Formatter<'_>) -> fmt::Result {
+        write!(f, "SIo#{}", self.idx)
+    }
+}
+
+impl Drop for SIo {
+    fn drop(&mut self) {
+        if let Ok(mut n) = self.net.try_borrow_mut() {
+            n.conns[self.idx].dropped = true;
+        }
+    }
+}
+
+impl AsyncRead for SIo {
+    fn poll_read(self: Pin<&mut Self>, cx: &mut Context<'_>, buf: &mut ReadBuf<'_>) -> Poll<io::Result<()>> {
+        let mut n = self.net.borrow_mut();
+        let c = &mut n.conns[self.idx];
+        if let Some(front) = c.inq.front_mut() {
+            if front.pause {
+                front.pause = false;
+                c.read_pendings += 1;
+                cx.waker().wake_by_ref();
+                return Poll::Pending;
+            }
+            let mut it = c.inq.pop_front().unwrap();
+            let k = it.data.len().min(buf.remaining());
+            buf.put_slice(&it.data[..k]);
+            c.bytes_read += k;
+            if k < it.data.len() {
+                let rest = it.data.split_off(k);
+                c.inq.push_front(Item { data: rest, pause: false });
+            }
+            return Poll::Ready(Ok(()));
+        }
+        match c.close {
+            Some(kind) => {
+                if c.close_pause {
+                    c.close_pause = false;
+                    c.read_pendings += 1;
+                    cx.waker().wake_by_ref();
+                    return Poll::Pending;
+                }
+                if kind == CloseKind::Reset {
+                    Poll::Ready(Err(io::Error::new(io::ErrorKind::ConnectionReset, "scripted reset")))
+                } else {
+                    c.eof_seen = true;
+                    Poll::Ready(Ok(()))
+                }
+            }
+            None => {
+                c.read_pendings += 1;
+                c.read_waker = Some(cx.waker().clone());
+                Poll::Pending
+            }
+        }
+    }
+}
+
+impl AsyncWrite for SIo {
+    fn poll_write(self: Pin<&mut Self>, _: &mut Context<'_>, data: &[u8]) -> Poll<io::Result<usize>> {
+        let idx = self.idx;
+        let mut n = self.net.borrow_mut();
+        n.conns[idx].out.extend_from_slice(data);
+        // requests carry no body: every CRLFCRLF ends one request
+        loop {
+            let c = &mut n.conns[idx];
+            let from = c.scanned;
+            let Some(p) = c.out[from..].windows(4).position(|w| w == b"\r\n\r\n") else { break };
+            let head = &c.out[from..from + p];
+            let line = head.split(|&b| b == b'\r').next().unwrap_or(&[]);
+            let target = String::from_utf8_lossy(line).split(' ').nth(1).unwrap_or("").to_string();
+            c.scanned = from + p + 4;
+            n.on_request(idx, target);
+        }
+        Poll::Ready(Ok(data.len()))
+    }
+    fn poll_flush(self: Pin<&mut Self>, _: &mut Context<'_>) -> Poll<io::Result<()>> {
+        Poll::Ready(Ok(()))
+    }
+    fn poll_shutdown(self: Pin<&mut Self>, _: &mut Context<'_>) -> Poll<io::Result<()>> {
+        self.net.borrow_mut().conns[self.idx].shutdown = true;
+        Poll::Ready(Ok(()))
+    }
+}
+
+impl ActixStream for SIo {
+    fn poll_read_ready(&self, cx: &mut Context<'_>) -> Poll<io::Result<Ready>> {
+        let mut n = self.net.borrow_mut();
+        let c = &mut n.conns[self.idx];
+        if !c.inq.is_empty() || c.close.is_some() {
+            Poll::Ready(Ok(Ready::READABLE))
+        } else {
+            c.read_waker = Some(cx.waker().clone());
+            Poll::Pending
+        }
+    }
+    fn poll_write_ready(&self, _: &mut Context<'_>) -> Poll<io::Result<Ready>> {
+        Poll::Ready(Ok(Ready::WRITABLE))
+    }
+}
+
+#[derive(Clone)]
+struct ScriptConnector {
+    net: NetRc,
+}
+
+impl Service<ConnectInfo<Uri>> for ScriptConnector {
+    type Response = Connection<Uri, SIo>;
+    type Error = ConnectError;
+    type Future = LocalBoxFuture<'static, Result<Self::Response, Self::Error>>;
+
+    actix_service::always_ready!();
+
+    fn call(&self, req: ConnectInfo<Uri>) -> Self::Future {
+        let net = self.net.clone();
+        Box::pin(async move {
+            {
+                let mut n = net.borrow_mut();
+                n.connects += 1;
+                let strict = n.open_now() + 1;
+                n.max_open_strict = n.max_open_strict.max(strict);
+            }
+            // connect latency: close tasks the pool has already spawned get to run
+            for _ in 0..3 {
+                tokio::task::yield_now().await;
+            }
+            let idx = {
+                let mut n = net.borrow_mut();
+                n.conns.push(ConnSt::default());
+                let open = n.open_now();
+                n.max_open = n.max_open.max(open);
+                n.conns.len() - 1
+            };
+            let uri = req.request().clone();
+            Ok(Connection::new(uri, SIo { net, idx }))
+        })
+    }
+}
+
+fn mk_client(net: &NetRc, limit: usize) -> awc::Client {
+    awc::Client::builder()
+        .connector(
+            awc::Connector::new()
+                .connector(ScriptConnector { net: net.clone() })
+                .limit(limit)
+                .timeout(Duration::from_secs(60)),
+        )
+        .timeout(RESP_TIMEOUT)
+        .disable_redirects()
+        .finish()
+}
+
+// ------------------------------------------------------------------------------------------------
+// one request
+// ------------------------------------------------------------------------------------------------
+
+#[derive(Clone, Copy, PartialEq, Eq, Debug, Serialize, Deserialize)]
+enum ClientAct {
+    ReadAll,
+    DropAtHead,
+    /// read at most this many chunks, then drop the response
+    DropAfter(usize),
+}
+
+#[derive(Clone, Debug, PartialEq, Eq)]
+enum BodyEnd {
+    Ok,
+    Err(String),
+    Dropped,
+    Overrun,
+}
+
+#[derive(Clone, Debug)]
+enum Outcome {
+    SendErr(String),
+    Resp { status: u16, xid: Option<String>, body: Vec<u8>, nchunks: usize, end: BodyEnd },
+    Stall,
+}
+
+impl Outcome {
+    fn class(&self) -> &'static str {
+        match self {
+            Outcome::SendErr(_) => "send-err",
+            Outcome::Stall => "stall",
+            Outcome::Resp { end: BodyEnd::Ok, .. } => "ok",
+            Outcome::Resp { end: BodyEnd::Err(_), .. } => "body-err",
+            Outcome::Resp { end: BodyEnd::Dropped, .. } => "dropped",
+            Outcome::Resp { end: BodyEnd::Overrun, .. } => "overrun",
+        }
+    }
+    fn read_to_end(&self) -> bool {
+        matches!(self, Outcome::Resp { end: BodyEnd::Ok, .. })
+    }
+}
+
+fn errclass(dbg: String) -> String {
+    let s: String = dbg.chars().filter(|c| c.is_ascii_alphanumeric() || "():_".contains(*c)).take(48).collect();
+    s
+}
+
+async fn exchange(client: awc::Client, head_req: bool, target: String, act: ClientAct) -> Outcome {
+    let url = format!("http://c17.test{target}");
+    let fut = async move {
+        let req = if head_req { client.head(url) } else { client.get(url) };
+        let resp = match req.no_decompress().send().await {
+            Err(e) => return Outcome::SendErr(errclass(format!("{e:?}"))),
+            Ok(r) => r,
+        };
+        let status = resp.status().as_u16();
+        let xid = resp.headers().get("x-id").and_then(|v| v.to_str().ok()).map(|s| s.to_string());
+        let mut resp = resp.timeout(RESP_TIMEOUT);
+        let mut body = vec![];
+        let mut nchunks = 0usize;
+        let max = match act {
+            ClientAct::ReadAll => MAX_CHUNKS,
+            ClientAct::DropAtHead => 0,
+            ClientAct::DropAfter(k) => k,
+        };
+        let mut end = BodyEnd::Dropped;
+        while nchunks < max {
+            match resp.next().await {
+                Some(Ok(b)) => {
+                    nchunks += 1;
+                    body.extend_from_slice(&b);
+                }
+                Some(Err(e)) => {
+                    end = BodyEnd::Err(errclass(format!("{e:?}")));
+                    break;
+                }
+                None => {
+                    end = BodyEnd::Ok;
+                    break;
+                }
+            }
+        }
+        if act == ClientAct::ReadAll && end == BodyEnd::Dropped {
+            end = BodyEnd::Overrun;
+        }
+        drop(resp);
+        Outcome::Resp { status, xid, body, nchunks, end }
+    };
+    match tokio::time::timeout(WATCHDOG, fut).await {
+        Ok(o) => o,
+        Err(_) => Outcome::Stall,
+    }
+}
+
+// ------------------------------------------------------------------------------------------------
+// response templates (ground truth by construction)
+// ------------------------------------------------------------------------------------------------
+
+#[derive(Clone, Copy, PartialEq, Eq, Debug, Serialize, Deserialize)]
+enum Framing {
+    NoBody,
+    Cl,
+    Chunked,
+    /// HTTP/1.0 without Content-Length: delimited by the close
+    Close10,
+    /// HTTP/1.1 without Content-Length / Transfer-Encoding: RFC 7230 says close-delimited; awc
+    /// treats it as "no body".  Not framed by Content-Length or chunked coding: both accepted.
+    Close11,
+}
+
+impl Framing {
+    fn name(self) -> &'static str {
+        match self {
+            Framing::NoBody => "no-body",
+            Framing::Cl => "content-length",
+            Framing::Chunked => "chunked",
+            Framing::Close10 => "close-delimited-1.0",
+            Framing::Close11 => "close-delimited-1.1",
+        }
+    }
+}
+
+#[derive(Clone, Debug, Serialize, Deserialize)]
+struct Part {
+    label: String,
+    #[serde(with = "escb")]
+    bytes: Vec<u8>,
+}
+
+#[derive(Clone, Debug, Serialize, Deserialize)]
+struct Tpl {
+    name: String,
+    head_req: bool,
+    parts: Vec<Part>,
+    /// end of the head of the final (non-interim) response
+    final_head_end: usize,
+    /// offset at which every body byte and the last-chunk line have been received
+    body_done_at: Option<usize>,
+    /// offset at which the message is complete by its own framing (None: close-delimited)
+    msg_end: Option<usize>,
+    status: u16,
+    #[serde(with = "escb")]
+    body: Vec<u8>,
+    framing: Framing,
+}
+
+impl Tpl {
+    fn wire(&self) -> Vec<u8> {
+        self.parts.iter().flat_map(|p| p.bytes.iter().copied()).collect()
+    }
+    /// label of the part containing the first byte that was NOT delivered
+    fn region(&self, cut_at: usize) -> String {
+        let mut off = 0;
+        for p in &self.parts {
+            if cut_at < off + p.bytes.len() {
+                let inside = if cut_at == off { "^" } else { "" };
+                return format!("{inside}{}", p.label);
+            }
+            off += p.bytes.len();
+        }
+        "complete".into()
+    }
+}
+
+struct TB {
+    name: String,
+    head_req: bool,
+    parts: Vec<Part>,
+    status: u16,
+    body: Vec<u8>,
+    framing: Framing,
+    final_head_end: usize,
+    body_done_at: Option<usize>,
+}
+
+impl TB {
+    fn new(name: &str) -> TB {
+        TB { name: name.into(), head_req: false, parts: vec![], status: 0, body: vec![], framing: Framing::NoBody, final_head_end: 0, body_done_at: None }
+    }
+    fn len(&self) -> usize {
+        self.parts.iter().map(|p| p.bytes.len()).sum()
+    }
+    fn p(&mut self, label: &str, b: impl AsRef<[u8]>) -> &mut Self {
+        if !b.as_ref().is_empty() {
+            self.parts.push(Part { label: label.into(), bytes: b.as_ref().to_vec() });
+        }
+        self
+    }
+    fn interim(&mut self, status_line: &str, headers: &[&str]) -> &mut Self {
+        self.p("interim-status-line", format!("{status_line}\r\n"));
+        for h in headers {
+            self.p("interim-header", format!("{h}\r\n"));
+        }
+        self.p("interim-head-end", "\r\n")
+    }
+    fn head(&mut self, status_line: &str, headers: &[&str]) -> &mut Self {
+        self.status = status_line[9..12].parse().unwrap();
+        self.p("status-line", format!("{status_line}\r\n"));
+        for h in headers {
+            self.p("header", format!("{h}\r\n"));
+        }
+        self.p("head-end", "\r\n");
+        self.final_head_end = self.len();
+        self
+    }
+    fn cl_body(&mut self, body: &[u8]) -> &mut Self {
+        self.framing = Framing::Cl;
+        self.body = body.to_vec();
+        self.p("cl-body", body);
+        self.body_done_at = Some(self.len());
+        self
+    }
+    fn chunk(&mut self, size_line: &str, data: &[u8]) -> &mut Self {
+        self.framing = Framing::Chunked;
+        self.body.extend_from_slice(data);
+        // size_line is "<hex>[;ext]"
+        let (sz, ext) = match size_line.find(';') {
+            Some(i) => (&size_line[..i], &size_line[i..]),
+            None => (size_line, ""),
+        };
+        self.p("chunk-size", sz).p("chunk-ext", ext).p("chunk-size-crlf", "\r\n").p("chunk-data", data).p("chunk-data-crlf", "\r\n")
+    }
+    fn last_chunk(&mut self, size_line: &str) -> &mut Self {
+        self.framing = Framing::Chunked;
+        let (sz, ext) = match size_line.find(';') {
+            Some(i) => (&size_line[..i], &size_line[i..]),
+            None => (size_line, ""),
+        };
+        self.p("last-chunk-size", sz).p("last-chunk-ext", ext).p("last-chunk-crlf", "\r\n");
+        self.body_done_at = Some(self.len());
+        self.p("final-crlf", "\r\n")
+    }
+    fn close_body(&mut self, f: Framing, body: &[u8]) -> &mut Self {
+        self.framing = f;
+        self.body = body.to_vec();
+        self.p("close-delimited-body", body)
+    }
+    fn build(&mut self) -> Tpl {
+        let len = self.len();
+        let (msg_end, bda) = match self.framing {
+            Framing::NoBody => (Some(self.final_head_end), Some(self.final_head_end)),
+            Framing::Cl | Framing::Chunked => (Some(len), self.body_done_at),
+            Framing::Close10 | Framing::Close11 => (None, None),
+        };
+        Tpl {
+            name: self.name.clone(),
+            head_req: self.head_req,
+            parts: self.parts.clone(),
+            final_head_end: self.final_head_end,
+            body_done_at: bda,
+            msg_end,
+            status: self.status,
+            body: self.body.clone(),
+            framing: self.framing,
+        }
+    }
+}
+
+fn short_corpus() -> Vec<Tpl> {
+    let mut v = vec![];
+    v.push(TB::new("cl").head("HTTP/1.1 200 OK", &["content-length: 11"]).cl_body(b"hello world").build());
+    v.push(TB::new("cl-mixed-headers").head("HTTP/1.1 200 OK", &["Server: x", "Content-Length:  7 ", "X-A: b"]).cl_body(b"0\r\n\r\nab").build());
+    v.push(TB::new("cl-zero").head("HTTP/1.1 200 OK", &["content-length: 0"]).build());
+    v.push(TB::new("cl-conn-close").head("HTTP/1.1 200 OK", &["connection: close", "content-length: 5"]).cl_body(b"hello").build());
+    v.push(TB::new("cl-http10-keepalive").head("HTTP/1.0 200 OK", &["connection: keep-alive", "content-length: 5"]).cl_body(b"hello").build());
+    v.push(TB::new("cl-http10").head("HTTP/1.0 200 OK", &["content-length: 6"]).cl_body(b"hello!").build());
+    v.push(TB::new("chunked").head("HTTP/1.1 200 OK", &["transfer-encoding: chunked"]).chunk("5", b"hello").chunk("6", b" world").last_chunk("0").build());
+    v.push(
+        TB::new("chunked-ext")
+            .head("HTTP/1.1 200 OK", &["Transfer-Encoding: chunked"])
+            .chunk("5;ext=1", b"hello")
+            .chunk("00A;foo", b"0123456789")
+            .chunk("1", b"\r")
+            .last_chunk("0;last")
+            .build(),
+    );
+    v.push(TB::new("chunked-lookalike").head("HTTP/1.1 200 OK", &["transfer-encoding: chunked"]).chunk("7", b"0\r\n\r\nHT").last_chunk("000").build());
+    v.push(TB::new("chunked-empty").head("HTTP/1.1 200 OK", &["transfer-encoding: chunked"]).last_chunk("0").build());
+    v.push(TB::new("close-1.0").head("HTTP/1.0 200 OK", &["server: old"]).close_body(Framing::Close10, b"hello old world").build());
+    v.push(TB::new("close-1.1").head("HTTP/1.1 200 OK", &["connection: close"]).close_body(Framing::Close11, b"until close").build());
+    let mut t = TB::new("head-cl");
+    t.head_req = true;
+    v.push(t.head("HTTP/1.1 200 OK", &["content-length: 1234"]).build());
+    let mut t = TB::new("head-chunked");
+    t.head_req = true;
+    v.push(t.head("HTTP/1.1 200 OK", &["transfer-encoding: chunked"]).build());
+    v.push(TB::new("204").head("HTTP/1.1 204 No Content", &["x-a: b"]).build());
+    v.push(TB::new("304").head("HTTP/1.1 304 Not Modified", &["etag: \"a\""]).build());
+    // RFC 7230 §3.3.2: a 304 may carry the Content-Length of the representation; it never has a body
+    v.push(TB::new("304-cl").head("HTTP/1.1 304 Not Modified", &["content-length: 11"]).build());
+    v.push(TB::new("interim-100-cl").interim("HTTP/1.1 100 Continue", &[]).head("HTTP/1.1 200 OK", &["content-length: 5"]).cl_body(b"hello").build());
+    v.push(
+        TB::new("interim-103-chunked")
+            .interim("HTTP/1.1 103 Early Hints", &["link: </a>; rel=preload"])
+            .head("HTTP/1.1 200 OK", &["transfer-encoding: chunked"])
+            .chunk("3", b"abc")
+            .last_chunk("0")
+            .build(),
+    );
+    v
+}
+
+/// random template with a larger body
+fn random_tpl(rng: &mut Rng) -> Tpl {
+    let kind = rng.below(6);
+    let blen = match rng.below(4) {
+        0 => rng.range(1, 40),
+        1 => rng.range(41, 2000),
+        2 => rng.range(2001, 20_000),
+        _ => rng.range(20_001, 90_000),
+    };
+    let body: Vec<u8> = {
+        // body full of response look-alikes and chunk terminators
+        let pats: [&[u8]; 5] = [b"0\r\n\r\n", b"HTTP/1.1 200 OK\r\ncontent-length: 3\r\n\r\nabc", b"\r\n", b"xyzzy", b"5\r\nhello\r\n"];
+        let mut b = Vec::with_capacity(blen + 64);
+        while b.len() < blen {
+            if rng.chance(1, 3) {
+                b.extend_from_slice(pats[rng.below(pats.len())]);
+            } else {
+                let n = rng.range(1, 64);
+                b.extend((0..n).map(|_| b'a' + (rng.next() % 26) as u8));
+            }
+        }
+        b.truncate(blen);
+        b
+    };
+    let mut extra: Vec<String> = vec![];
+    for _ in 0..rng.below(4) {
+        extra.push(format!("x-h{}: {}", rng.below(100), "v".repeat(rng.range(1, 30))));
+    }
+    let interim = rng.chance(1, 6);
+    match kind {
+        0 | 1 => {
+            let mut t = TB::new("rand-cl");
+            if interim {
+                t.interim("HTTP/1.1 103 Early Hints", &["link: </s.css>; rel=preload"]);
+            }
+            let cl = format!("content-length: {}", body.len());
+            let mut hs: Vec<&str> = extra.iter().map(|s| s.as_str()).collect();
+            hs.insert(rng.below(hs.len() + 1), cl.as_str());
+            t.head("HTTP/1.1 200 OK", &hs).cl_body(&body).build()
+        }
+        2 | 3 | 4 => {
+            let mut t = TB::new("rand-chunked");
+            if interim {
+                t.interim("HTTP/1.1 100 Continue", &[]);
+            }
+            let mut hs: Vec<&str> = extra.iter().map(|s| s.as_str()).collect();
+            hs.insert(rng.below(hs.len() + 1), "transfer-encoding: chunked");
+            t.head("HTTP/1.1 200 OK", &hs);
+            let mut off = 0;
+            while off < body.len() {
+                let n = match rng.below(4) {
+                    0 => rng.range(1, 8),
+                    1 => rng.range(1, 300),
+                    2 => rng.range(1, 5000),
+                    _ => rng.range(1, 40_000),
+                }
+                .min(body.len() - off);
+                let mut sl = match rng.below(3) {
+                    0 => format!("{:x}", n),
+                    1 => format!("{:X}", n),
+                    _ => format!("{:04x}", n),
+                };
+                if rng.chance(1, 4) {
+                    sl.push_str([";a", ";a=b", ";x=1;y=2"][rng.below(3)]);
+                }
+                t.chunk(&sl, &body[off..off + n]);
+                off += n;
+            }
+            t.last_chunk(if rng.chance(1, 5) { "0;fin" } else { "0" }).build()
+        }
+        _ => {
+            let hs: Vec<&str> = extra.iter().map(|s| s.as_str()).collect();
+            TB::new("rand-close-1.0").head("HTTP/1.0 200 OK", &hs).close_body(Framing::Close10, &body).build()
+        }
+    }
+}
+
+// ------------------------------------------------------------------------------------------------
+// exchange cases
+// ------------------------------------------------------------------------------------------------
+
+#[derive(Clone, Debug, Serialize, Deserialize)]
+struct XCase {
+    /// bytes [0, cut_at) of the wire are delivered, then `close`
+    cut_at: usize,
+    close: CloseKind,
+    /// read-segment boundaries inside the delivered prefix
+    cuts: Vec<usize>,
+    pace: bool,
+    seg_class: String,
+}
+
+struct XObs {
+    out: Outcome,
+    conns: usize,
+    max_open: usize,
+    bytes_read: usize,
+    read_pendings: u64,
+}
+
+fn run_exchange(t: &Tpl, c: &XCase) -> Result<XObs, String> {
+    let wire = t.wire();
+    let head_req = t.head_req;
+    let c = c.clone();
+    guard(move || {
+        run_virtual(async move {
+            let net: NetRc = Rc::new(RefCell::new(Net::default()));
+            let delivered = &wire[..c.cut_at.min(wire.len())];
+            let segs = if delivered.is_empty() { vec![] } else { split_at_cuts(delivered, &c.cuts) };
+            net.borrow_mut().plan.insert("/x".into(), Reply { segs, pace: c.pace, close: c.close, close_pause: c.pace, leftover: None });
+            let client = mk_client(&net, 4);
+            let out = exchange(client.clone(), head_req, "/x".into(), ClientAct::ReadAll).await;
+            drop(client);
+            breathe().await;
+            let n = net.borrow();
+            XObs {
+                out,
+                conns: n.conns.len(),
+                max_open: n.max_open,
+                bytes_read: n.conns.iter().map(|c| c.bytes_read).sum(),
+                read_pendings: n.conns.iter().map(|c| c.read_pendings).sum(),
+            }
+        })
+    })
+}
+
+fn is_prefix(a: &[u8], of: &[u8]) -> bool {
+    a.len() <= of.len() && &of[..a.len()] == a
+}
+
+/// Returns (class, detail) of the violated clause, if any; bumps observation counters.
+fn judge_exchange(t: &Tpl, c: &XCase, o: &XObs, rep: &mut Reporter) -> Option<(String, String)> {
+    let wire_len: usize = t.parts.iter().map(|p| p.bytes.len()).sum();
+    let fr = t.framing.name();
+    rep.count(&format!("outcome:{}", o.out.class()), 1);
+    if o.conns != 1 {
+        return Some(("harness".into(), format!("{} connections opened for one request", o.conns)));
+    }
+    let complete = t.msg_end.map(|e| c.cut_at >= e).unwrap_or(false);
+    match &o.out {
+        Outcome::Stall => Some(("no-outcome".into(), "neither a response nor an error within 7200 virtual seconds (timeouts are 600 s)".into())),
+        Outcome::SendErr(e) => {
+            rep.count(&format!("send-err:{e}"), 1);
+            if complete && c.close != CloseKind::Reset {
+                rep.count("anomaly:error-on-complete-message", 1);
+            }
+            if c.cut_at < t.final_head_end {
+                rep.count("expected:error-before-head-complete", 1);
+            } else {
+                rep.count("expected:error-at-send-for-incomplete-body", 1);
+            }
+            None
+        }
+        Outcome::Resp { status, body, end, .. } => {
+            if c.cut_at < t.final_head_end {
+                let what = if (100..200).contains(status) { "interim-as-final" } else { "response-from-incomplete-head" };
+                return Some((what.into(), format!("status {status} returned although the final response head was cut at byte {} of {}", c.cut_at, t.final_head_end)));
+            }
+            if *status != t.status {
+                let what = if (100..200).contains(status) { "interim-as-final" } else { "wrong-status" };
+                return Some((what.into(), format!("status {status} returned, final response has {}", t.status)));
+            }
+            match t.framing {
+                Framing::NoBody | Framing::Cl | Framing::Chunked => {
+                    if !is_prefix(body, &t.body) {
+                        return Some((format!("body-corrupt/{fr}"), format!("delivered {} bytes that are not a prefix of the framed body: {}", body.len(), esc_short(body, 80))));
+                    }
+                    match end {
+                        BodyEnd::Ok => {
+                            if body.len() < t.body.len() {
+                                return Some((
+                                    format!("short-success/{fr}"),
+                                    format!("body ended cleanly after {} of {} bytes; peer {} at wire offset {} of {}", body.len(), t.body.len(), c.close.name(), c.cut_at, wire_len),
+                                ));
+                            }
+                            let done = t.body_done_at.unwrap();
+                            if c.cut_at < done {
+                                return Some((
+                                    format!("short-success/{fr}"),
+                                    format!("all {} body bytes delivered and the body ended cleanly, but the peer {} at offset {} before the last-chunk (at {})", body.len(), c.close.name(), c.cut_at, done),
+                                ));
+                            }
+                            if !complete {
+                                rep.count("tolerated:ok-after-last-chunk-before-final-crlf", 1);
+                            } else {
+                                rep.count("expected:ok-complete", 1);
+                            }
+                            None
+                        }
+                        BodyEnd::Err(e) => {
+                            rep.count(&format!("body-err:{e}"), 1);
+                            if complete && c.close != CloseKind::Reset {
+                                rep.count("anomaly:error-on-complete-message", 1);
+                            } else {
+                                rep.count("expected:error-in-body", 1);
+                            }
+                            None
+                        }
+                        _ => Some(("harness".into(), format!("body reading ended with {end:?}"))),
+                    }
+                }
+                Framing::Close10 | Framing::Close11 => {
+                    let w = t.wire();
+                    let got = &w[t.final_head_end..c.cut_at];
+                    if !is_prefix(body, got) {
+                        return Some((format!("body-corrupt/{fr}"), format!("delivered {} bytes that are not a prefix of what the peer sent: {}", body.len(), esc_short(body, 80))));
+                    }
+                    match end {
+                        BodyEnd::Ok => {
+                            if t.framing == Framing::Close11 && body.is_empty() && !got.is_empty() {
+                                rep.count("tolerated:http11-unframed-response-read-as-empty", 1);
+                                return None;
+                            }
+                            if c.close == CloseKind::Stay && t.framing == Framing::Close10 {
+                                return Some((format!("ended-without-close/{fr}"), "close-delimited body ended cleanly while the connection was still open".into()));
+                            }
+                            if c.close == CloseKind::Eof && body.len() != got.len() {
+                                return Some((format!("short-success/{fr}"), format!("{} of the {} bytes sent before the close were delivered", body.len(), got.len())));
+                            }
+                            rep.count("expected:ok-close-delimited", 1);
+                            None
+                        }
+                        BodyEnd::Err(e) => {
+                            rep.count(&format!("body-err:{e}"), 1);
+                            if c.close == CloseKind::Eof {
+                                rep.count("anomaly:error-on-complete-message", 1);
+                            } else {
+                                rep.count("expected:error-in-body", 1);
+                            }
+                            None
+                        }
+                        _ => Some(("harness".into(), format!("body reading ended with {end:?}"))),
+                    }
+                }
+            }
+        }
+    }
+}
+
+fn x_replay(t: &Tpl, c: &XCase) -> serde_json::Value {
+    json!({"phase": "exchange", "tpl": t, "case": c})
+}
+
+fn eval_exchange(t: &Tpl, c: &XCase, rep: &mut Reporter) {
+    rep.eval();
+    let region = t.region(c.cut_at);
+    let sig_in = format!("{}:{}:{}", t.name, region.trim_start_matches('^'), c.close.name());
+    match run_exchange(t, c) {
+        Err(p) => {
+            rep.violation("panic", &panic_site(&p), &format!("{p} — template {} cut at {} ({region})", t.name, c.cut_at), x_replay(t, c));
+        }
+        Ok(o) => {
+            rep.count("bytes_read_by_client", o.bytes_read as u64);
+            rep.count("read_pendings", o.read_pendings);
+            rep.max("open_connections_single_exchange", o.max_open as u64);
+            let before = rep.get("anomaly:error-on-complete-message");
+            let verdict = judge_exchange(t, c, &o, rep);
+            if debug() && rep.get("anomaly:error-on-complete-message") > before {
+                eprintln!("ANOMALY error-on-complete {} cut_at {} {} {:?} seg {} -> {}", t.name, c.cut_at, c.close.name(), c.cuts.len(), c.seg_class, short_outcome(&o.out));
+            }
+            rep.sig(&format!("x|{}|{}|{}|{}|{}|{}", t.name, region.trim_start_matches('^'), c.close.name(), c.seg_class, c.pace, o.out.class()));
+            rep.count(&format!("cut-region:{}", region.trim_start_matches('^')), 1);
+            if rep.get("evaluations") % 5000 == 1 {
+                rep.sample("exchange", json!({"template": t.name, "connection_ends_at": c.cut_at, "of": t.wire().len(), "in": region, "how": c.close.name(), "segmentation": c.seg_class, "pending_between_reads": c.pace, "outcome": short_outcome(&o.out)}));
+            }
+            if let Some((class, detail)) = verdict {
+                let detail = format!("{detail}; template {} ({}), request {}, segmentation {} pace={}; outcome {:?}", t.name, t.framing.name(), if t.head_req { "HEAD" } else { "GET" }, c.seg_class, c.pace, short_outcome(&o.out));
+                // one signature per interim status: what was cut where does not matter for this clause
+                let sig = match (&o.out, class.as_str()) {
+                    (Outcome::Resp { status, .. }, "interim-as-final") => format!("status-{status}"),
+                    _ => sig_in.clone(),
+                };
+                rep.violation(&class, &sig, &detail, x_replay(t, c));
+            }
+        }
+    }
+}
+
+fn debug() -> bool {
+    std::env::var("C17_DEBUG").is_ok()
+}
+
+fn short_outcome(o: &Outcome) -> String {
+    match o {
+        Outcome::Resp { status, xid, body, nchunks, end } => format!("Resp{{status:{status}, x-id:{xid:?}, body:{} bytes \"{}\", chunks:{nchunks}, end:{end:?}}}", body.len(), esc_short(body, 40)),
+        o => format!("{o:?}"),
+    }
+}
+
+/// Cross-check a template's ground truth against the independent reference response parser.
+fn self_check(t: &Tpl, rep: &mut Reporter) -> bool {
+    let wire = t.wire();
+    let m = if t.head_req { "HEAD" } else { "GET" };
+    let rp = h1_resp::parse_responses(&wire, &|_| Some(m.to_string()), true);
+    let Some(last) = rp.resps.iter().find(|r| !r.is_interim()) else {
+        rep.inconclusive(&format!("template {}: reference parser found no final response", t.name));
+        return false;
+    };
+    let fr_ok = match (&last.framing, t.framing) {
+        (h1_resp::RespFraming::NoBody, Framing::NoBody) => true,
+        (h1_resp::RespFraming::Cl(0), Framing::NoBody) => true,
+        (h1_resp::RespFraming::Cl(n), Framing::Cl) => *n as usize == t.body.len(),
+        (h1_resp::RespFraming::Chunked, Framing::Chunked) => true,
+        (h1_resp::RespFraming::CloseDelimited, Framing::Close10 | Framing::Close11) => true,
+        _ => false,
+    };
+    let ok = rp.malformed_at.is_none() && fr_ok && last.body == t.body && last.status == t.status && last.head_end == t.final_head_end && last.complete && (t.msg_end.is_none() || t.msg_end == Some(last.end));
+    if !ok {
+        rep.inconclusive(&format!("template {}: ground truth disagrees with refmodel/h1_resp ({:?} vs {:?}, body {} vs {})", t.name, last.framing, t.framing, last.body.len(), t.body.len()));
+    }
+    ok
+}
+
+// ------------------------------------------------------------------------------------------------
+// pool scenarios
+// ------------------------------------------------------------------------------------------------
+
+#[derive(Clone, Copy, PartialEq, Eq, Debug, Serialize, Deserialize)]
+enum RKind {
+    Cl,
+    Chunked,
+    NoBody204,
+    Head,
+    ClConnClose,
+    ChunkedConnClose,
+    H10Cl,
+    H10ClKeepAlive,
+    Close10,
+    TruncCl,
+    TruncChunked,
+    /// `103 Early Hints` in its own segment, then a complete Content-Length response
+    Interim103Cl,
+}
+
+impl RKind {
+    fn persistent(self) -> bool {
+        matches!(self, RKind::Cl | RKind::Chunked | RKind::NoBody204 | RKind::Head | RKind::H10ClKeepAlive | RKind::Interim103Cl)
+    }
+    fn complete(self) -> bool {
+        !matches!(self, RKind::TruncCl | RKind::TruncChunked)
+    }
+    fn nonpersistent_reason(self) -> &'static str {
+        match self {
+            RKind::ClConnClose | RKind::ChunkedConnClose => "connection-close",
+            RKind::H10Cl => "http10-without-keep-alive",
+            RKind::Close10 => "close-delimited",
+            _ => "persistent",
+        }
+    }
+}
+
+#[derive(Clone, Copy, PartialEq, Eq, Debug, Serialize, Deserialize)]
+enum Leftover {
+    None,
+    StaleResponse,
+    Garbage,
+}
+
+#[derive(Clone, Debug, Serialize, Deserialize)]
+struct ReqPlan {
+    kind: RKind,
+    body_len: usize,
+    nseg: usize,
+    pace: bool,
+    /// what the peer does right after the response: Stay or Eof (visible before the next request)
+    after: CloseKind,
+    leftover: Leftover,
+    act: ClientAct,
+}
+
+#[derive(Clone, Debug, Serialize, Deserialize)]
+struct PoolScenario {
+    limit: usize,
+    concurrent: bool,
+    plans: Vec<ReqPlan>,
+    order_seed: u64,
+}
+
+struct Built {
+    reply: Reply,
+    /// full body the application must see when it reads to the end
+    body: Vec<u8>,
+    framing: &'static str,
+}
+
+fn body_for(i: usize, len: usize) -> Vec<u8> {
+    let mut b = format!("id={i};").into_bytes();
+    let mut k = 0u8;
+    while b.len() < len {
+        b.push(b'a' + (k % 26));
+        k = k.wrapping_add(1);
+    }
+    b
+}
+
+fn even_cuts(len: usize, nseg: usize) -> Vec<usize> {
+    if nseg <= 1 || len < 2 {
+        return vec![];
+    }
+    (1..nseg).map(|k| k * len / nseg).filter(|&c| c > 0 && c < len).collect()
+}
+
+fn chunked_wire(body: &[u8], nchunks: usize) -> Vec<u8> {
+    let mut w = vec![];
+    let cuts = even_cuts(body.len(), nchunks.max(1));
+    for piece in split_at_cuts(body, &cuts) {
+        if piece.is_empty() {
+            continue;
+        }
+        w.extend_from_slice(format!("{:x}\r\n", piece.len()).as_bytes());
+        w.extend_from_slice(&piece);
+        w.extend_from_slice(b"\r\n");
+    }
+    w.extend_from_slice(b"0\r\n\r\n");
+    w
+}
+
+fn build_reply(i: usize, p: &ReqPlan) -> Built {
+    let body = body_for(i, p.body_len.max(8));
+    let xid = format!("x-id: {i}\r\n");
+    let (head, payload, framing, app_body): (String, Vec<u8>, &'static str, Vec<u8>) = match p.kind {
+        RKind::Cl | RKind::TruncCl | RKind::Interim103Cl => (format!("HTTP/1.1 200 OK\r\n{xid}content-length: {}\r\n\r\n", body.len()), body.clone(), "content-length", body.clone()),
+        RKind::ClConnClose => (format!("HTTP/1.1 200 OK\r\n{xid}connection: close\r\ncontent-length: {}\r\n\r\n", body.len()), body.clone(), "content-length", body.clone()),
+        RKind::H10Cl => (format!("HTTP/1.0 200 OK\r\n{xid}content-length: {}\r\n\r\n", body.len()), body.clone(), "content-length", body.clone()),
+        RKind::H10ClKeepAlive => (format!("HTTP/1.0 200 OK\r\n{xid}connection: keep-alive\r\ncontent-length: {}\r\n\r\n", body.len()), body.clone(), "content-length", body.clone()),
+        RKind::Chunked | RKind::TruncChunked => (format!("HTTP/1.1 200 OK\r\n{xid}transfer-encoding: chunked\r\n\r\n"), chunked_wire(&body, 3), "chunked", body.clone()),
+        RKind::ChunkedConnClose => (format!("HTTP/1.1 200 OK\r\n{xid}connection: close\r\ntransfer-encoding: chunked\r\n\r\n"), chunked_wire(&body, 3), "chunked", body.clone()),
+        RKind::NoBody204 => (format!("HTTP/1.1 204 No Content\r\n{xid}\r\n"), vec![], "no-body", vec![]),
+        RKind::Head => (format!("HTTP/1.1 200 OK\r\n{xid}content-length: {}\r\n\r\n", body.len()), vec![], "no-body", vec![]),
+        RKind::Close10 => (format!("HTTP/1.0 200 OK\r\n{xid}\r\n"), body.clone(), "close-delimited-1.0", body.clone()),
+    };
+    let interim: &[u8] = if p.kind == RKind::Interim103Cl { b"HTTP/1.1 103 Early Hints\r\nlink: </s.css>; rel=preload\r\n\r\n" } else { b"" };
+    let mut wire = interim.to_vec();
+    wire.extend_from_slice(head.as_bytes());
+    let head_len = wire.len();
+    wire.extend_from_slice(&payload);
+    let mut close = p.after;
+    if matches!(p.kind, RKind::TruncCl | RKind::TruncChunked) {
+        // lose the last third of the payload (at least the terminator)
+        let keep = head_len + payload.len() * 2 / 3;
+        wire.truncate(keep.min(wire.len() - 1));
+        close = CloseKind::Eof;
+    }
+    if p.kind == RKind::Close10 {
+        close = CloseKind::Eof;
+    }
+    // the head goes out as one segment, the payload in nseg segments
+    let mut cuts = vec![];
+    if !interim.is_empty() {
+        cuts.push(interim.len());
+    }
+    if wire.len() > head_len {
+        cuts.push(head_len);
+        for c in even_cuts(wire.len() - head_len, p.nseg) {
+            cuts.push(head_len + c);
+        }
+    }
+    let leftover = match p.leftover {
+        Leftover::None => None,
+        // bytes before the close ARE the body of a close-delimited response
+        _ if p.kind == RKind::Close10 || !p.kind.complete() => None,
+        Leftover::StaleResponse => Some(format!("HTTP/1.1 200 OK\r\nx-id: stale{i}\r\ncontent-length: 12\r\n\r\nid=stale{i:03};").into_bytes()),
+        Leftover::Garbage => Some(b"zz".to_vec()),
+    };
+    let pace = p.pace && p.kind != RKind::Interim103Cl;
+    Built { reply: Reply { segs: split_at_cuts(&wire, &cuts), pace, close, close_pause: false, leftover }, body: app_body, framing }
+}
+
+struct PoolObs {
+    outs: Vec<Outcome>,
+    /// per connection: request indices in arrival order
+    per_conn: Vec<Vec<usize>>,
+    conn_of: Vec<Option<usize>>,
+    max_open: usize,
+    max_open_strict: usize,
+    connects: usize,
+    max_held: usize,
+    unreleased: usize,
+    unknown_targets: u64,
+}
+
+fn run_pool(sc: &PoolScenario) -> Result<PoolObs, String> {
+    let sc = sc.clone();
+    guard(move || {
+        run_virtual(async move {
+            let net: NetRc = Rc::new(RefCell::new(Net::default()));
+            let n = sc.plans.len();
+            for (i, p) in sc.plans.iter().enumerate() {
+                net.borrow_mut().plan.insert(format!("/r{i}"), build_reply(i, p).reply);
+            }
+            let client = mk_client(&net, sc.limit);
+            let mut outs: Vec<Option<Outcome>> = vec![None; n];
+            let mut max_held = 0;
+            let mut unreleased = 0;
+            if !sc.concurrent {
+                for (i, p) in sc.plans.iter().enumerate() {
+                    let o = exchange(client.clone(), p.kind == RKind::Head, format!("/r{i}"), p.act).await;
+                    outs[i] = Some(o);
+                    breathe().await;
+                }
+            } else {
+                net.borrow_mut().gated = true;
+                let mut rng = Rng::derive(sc.order_seed, 17, 0);
+                let handles: Vec<_> = sc.plans.iter().enumerate().map(|(i, p)| actix_rt::spawn(exchange(client.clone(), p.kind == RKind::Head, format!("/r{i}"), p.act))).collect();
+                let mut idle_rounds = 0;
+                let mut released = 0;
+                let mut rounds = 0;
+                while released < n && idle_rounds < 200 && rounds < 100 * n + 1000 {
+                    rounds += 1;
+                    breathe().await;
+                    let held = net.borrow().held.len();
+                    max_held = max_held.max(held);
+                    if held == 0 {
+                        idle_rounds += 1;
+                        continue;
+                    }
+                    idle_rounds = 0;
+                    // sometimes let more requests arrive before answering
+                    if rng.chance(1, 3) {
+                        continue;
+                    }
+                    let k = rng.below(held);
+                    net.borrow_mut().release_held(k);
+                    released += 1;
+                }
+                unreleased = n - released;
+                net.borrow_mut().gated = false;
+                let pending: Vec<usize> = (0..net.borrow().held.len()).collect();
+                for _ in pending {
+                    net.borrow_mut().release_held(0);
+                }
+                for (i, h) in handles.into_iter().enumerate() {
+                    outs[i] = Some(match h.await {
+                        Ok(o) => o,
+                        Err(_) => Outcome::SendErr("task-panicked".into()),
+                    });
+                }
+            }
+            drop(client);
+            breathe().await;
+            let nn = net.borrow();
+            let idx_of = |t: &str| t.trim_start_matches("/r").parse::<usize>().ok();
+            let per_conn: Vec<Vec<usize>> = nn.conns.iter().map(|c| c.targets.iter().filter_map(|t| idx_of(t.as_str())).collect()).collect();
+            let mut conn_of = vec![None; n];
+            for (ci, l) in per_conn.iter().enumerate() {
+                for &i in l {
+                    if i < n {
+                        conn_of[i] = Some(ci);
+                    }
+                }
+            }
+            PoolObs {
+                outs: outs.into_iter().map(|o| o.unwrap_or(Outcome::Stall)).collect(),
+                per_conn,
+                conn_of,
+                max_open: nn.max_open,
+                max_open_strict: nn.max_open_strict,
+                connects: nn.connects,
+                max_held,
+                unreleased,
+                unknown_targets: nn.unknown_targets,
+            }
+        })
+    })
+}
+
+fn act_name(a: ClientAct) -> String {
+    match a {
+        ClientAct::ReadAll => "read".into(),
+        ClientAct::DropAtHead => "drop0".into(),
+        ClientAct::DropAfter(k) => format!("drop{}", k.min(2)),
+    }
+}
+
+fn plan_sig(p: &ReqPlan) -> String {
+    format!("{:?}/{}/{:?}/{}", p.kind, p.after.name(), p.leftover, act_name(p.act))
+}
+
+fn judge_pool(sc: &PoolScenario, o: &PoolObs, rep: &mut Reporter) -> Vec<(String, String, String)> {
+    let mut v: Vec<(String, String, String)> = vec![];
+    let n = sc.plans.len();
+    let built: Vec<Built> = sc.plans.iter().enumerate().map(|(i, p)| build_reply(i, p)).collect();
+    if o.unknown_targets > 0 {
+        v.push(("harness".into(), "unknown-target".into(), format!("{} requests with a target the script does not know", o.unknown_targets)));
+    }
+    // (1) every response handed to request i is request i's, and an Ok body is the whole body
+    for i in 0..n {
+        let p = &sc.plans[i];
+        rep.count(&format!("pool-outcome:{}", o.outs[i].class()), 1);
+        match &o.outs[i] {
+            Outcome::Stall => v.push(("no-outcome".into(), format!("pool:{}", plan_sig(p)), format!("request {i}: neither response nor error within 7200 virtual seconds"))),
+            Outcome::SendErr(e) => {
+                rep.count(&format!("pool-send-err:{e}"), 1);
+                if p.kind.complete() {
+                    rep.count("anomaly:pool-error-for-complete-response", 1);
+                    if debug() {
+                        eprintln!("ANOMALY send-err {e} req {i} plans {:?} conns {:?}", sc.plans.iter().map(plan_sig).collect::<Vec<_>>(), o.per_conn);
+                    }
+                }
+            }
+            Outcome::Resp { status, .. } if (100..200).contains(status) => {
+                v.push(("interim-as-final".into(), format!("status-{status}"), format!("request {i} was handed the interim response {status} as its final response")));
+            }
+            Outcome::Resp { xid, body, end, .. } => {
+                let own = i.to_string();
+                if xid.as_deref() != Some(own.as_str()) {
+                    v.push((
+                        "stale-response".into(),
+                        format!("pool:prev={}", prev_sig(sc, o, i)),
+                        format!("request {i} was handed a response carrying x-id {:?} (body {})", xid, esc_short(body, 40)),
+                    ));
+                    continue;
+                }
+                if !is_prefix(body, &built[i].body) {
+                    v.push((format!("body-corrupt/{}", built[i].framing), format!("pool:{:?}", p.kind), format!("request {i}: delivered bytes are not a prefix of its body: {}", esc_short(body, 60))));
+                    continue;
+                }
+                match end {
+                    BodyEnd::Ok => {
+                        if body.len() < built[i].body.len() || !p.kind.complete() {
+                            v.push((
+                                format!("short-success/{}", built[i].framing),
+                                format!("pool:{:?}", p.kind),
+                                format!("request {i}: body ended cleanly after {} of {} bytes (response kind {:?})", body.len(), built[i].body.len(), p.kind),
+                            ));
+                        }
+                    }
+                    BodyEnd::Err(e) => {
+                        rep.count(&format!("pool-body-err:{e}"), 1);
+                        if p.kind.complete() {
+                            rep.count("anomaly:pool-error-for-complete-response", 1);
+                            if debug() {
+                                eprintln!("ANOMALY body-err {e} req {i} plans {:?} conns {:?}", sc.plans.iter().map(plan_sig).collect::<Vec<_>>(), o.per_conn);
+                            }
+                        }
+                    }
+                    BodyEnd::Dropped => rep.count("pool:early-drops", 1),
+                    BodyEnd::Overrun => v.push(("harness".into(), "overrun".into(), format!("request {i}: more than {MAX_CHUNKS} chunks"))),
+                }
+            }
+        }
+    }
+    // (2) reuse discipline
+    for (ci, l) in o.per_conn.iter().enumerate() {
+        for w in l.windows(2) {
+            let (j, i) = (w[0], w[1]);
+            if j >= n || i >= n {
+                continue;
+            }
+            let pj = &sc.plans[j];
+            let reason = if !pj.kind.persistent() {
+                Some(pj.kind.nonpersistent_reason().to_string())
+            } else if !pj.kind.complete() {
+                Some("incomplete-response".to_string())
+            } else if !o.outs[j].read_to_end() && !matches!(pj.kind, RKind::NoBody204 | RKind::Head) {
+                Some(format!("body-not-read-to-end({})", o.outs[j].class()))
+            } else if matches!(o.outs[j], Outcome::SendErr(_) | Outcome::Stall) {
+                Some("failed-exchange".to_string())
+            } else if pj.leftover != Leftover::None {
+                Some(format!("leftover-bytes({:?})", pj.leftover))
+            } else {
+                None
+            };
+            match reason {
+                Some(r) => v.push((
+                    "reuse".into(),
+                    format!("after:{r}:{:?}", pj.kind),
+                    format!("request {i} was sent on connection {ci}, which had carried request {j} ({}) — not reusable: {r}", plan_sig(pj)),
+                )),
+                None => {
+                    if pj.after == CloseKind::Eof {
+                        rep.count("observed:reuse-after-peer-eof", 1);
+                    } else {
+                        rep.count("observed:legitimate-reuse", 1);
+                    }
+                }
+            }
+        }
+    }
+    // (3) limit
+    if o.max_open > sc.limit {
+        v.push(("limit".into(), format!("limit={}:concurrent={}", sc.limit, sc.concurrent), format!("{} connections open at once with limit {} ({} requests, {} connects)", o.max_open, sc.limit, n, o.connects)));
+    }
+    if o.max_open_strict > sc.limit {
+        rep.count("observed:limit-exceeded-only-by-connections-being-closed", 1);
+    }
+    v
+}
+
+fn prev_sig(sc: &PoolScenario, o: &PoolObs, i: usize) -> String {
+    if let Some(ci) = o.conn_of[i] {
+        let l = &o.per_conn[ci];
+        if let Some(pos) = l.iter().position(|&x| x == i) {
+            if pos > 0 {
+                return plan_sig(&sc.plans[l[pos - 1]]);
+            }
+        }
+    }
+    "first-on-connection".into()
+}
+
+fn eval_pool(sc: &PoolScenario, rep: &mut Reporter) {
+    rep.eval();
+    let replay = json!({"phase": "pool", "sc": sc});
+    match run_pool(sc) {
+        Err(p) => rep.violation("panic", &panic_site(&p), &format!("{p} — pool scenario {:?}", sc.plans.iter().map(plan_sig).collect::<Vec<_>>()), replay),
+        Ok(o) => {
+            let vs = judge_pool(sc, &o, rep);
+            rep.max("pool:max_open_connections", o.max_open as u64);
+            rep.max("pool:max_requests_answerable_at_once", o.max_held as u64);
+            rep.count("pool:connections_opened", o.connects as u64);
+            if rep.get("pool:requests") == 0 || (sc.concurrent && rep.get("pool:limit-reached") == 0) {
+                rep.sample(
+                    if sc.concurrent { "pool-concurrent" } else { "pool-sequence" },
+                    json!({"limit": sc.limit, "plans": sc.plans.iter().map(plan_sig).collect::<Vec<_>>(), "requests_per_connection": o.per_conn, "outcomes": o.outs.iter().map(|x| x.class()).collect::<Vec<_>>(), "max_open": o.max_open}),
+                );
+            }
+            rep.count("pool:requests", sc.plans.len() as u64);
+            if sc.concurrent {
+                rep.max("pool:max_requests_in_flight_over_limit", sc.plans.len().saturating_sub(sc.limit) as u64);
+                if o.unreleased > 0 {
+                    rep.count("anomaly:requests-never-arrived-at-peer", o.unreleased as u64);
+                }
+                if o.max_open == sc.limit {
+                    rep.count("pool:limit-reached", 1);
+                }
+            }
+            // signature: multiset of adjacent (previous plan → reused?) facts + limit class
+            let mut facts: Vec<String> = vec![];
+            for l in &o.per_conn {
+                for (k, &i) in l.iter().enumerate() {
+                    if i < sc.plans.len() {
+                        facts.push(format!("{}>{}", plan_sig(&sc.plans[i]), if k + 1 < l.len() { "reused" } else { "last" }));
+                    }
+                }
+            }
+            facts.sort();
+            facts.dedup();
+            for f in &facts {
+                rep.sig(&format!("pool|{}|{}", if sc.concurrent { "conc" } else { "seq" }, f));
+            }
+            for (class, sig, detail) in vs {
+                let detail = format!("{detail}; limit {} {} scenario {:?}; connections {:?}", sc.limit, if sc.concurrent { "concurrent" } else { "sequential" }, sc.plans.iter().map(plan_sig).collect::<Vec<_>>(), o.per_conn);
+                rep.violation(&class, &sig, &detail, replay.clone());
+            }
+        }
+    }
+}
+
+fn random_plan(rng: &mut Rng, concurrent: bool) -> ReqPlan {
+    const KINDS: [RKind; 12] = [
+        RKind::Cl,
+        RKind::Chunked,
+        RKind::NoBody204,
+        RKind::Head,
+        RKind::ClConnClose,
+        RKind::ChunkedConnClose,
+        RKind::H10Cl,
+        RKind::H10ClKeepAlive,
+        RKind::Close10,
+        RKind::TruncCl,
+        RKind::TruncChunked,
+        RKind::Interim103Cl,
+    ];
+    let kind = if rng.chance(1, 2) { *rng.pick(&[RKind::Cl, RKind::Chunked]) } else { *rng.pick(&KINDS) };
+    let body_len = match rng.below(3) {
+        0 => rng.range(8, 40),
+        1 => rng.range(41, 3000),
+        _ => rng.range(3001, 40_000),
+    };
+    let act = match rng.below(6) {
+        0 => ClientAct::DropAtHead,
+        1 => ClientAct::DropAfter(rng.range(1, 3)),
+        _ => ClientAct::ReadAll,
+    };
+    let leftover = if !concurrent && kind.persistent() && kind.complete() && rng.chance(1, 4) { *rng.pick(&[Leftover::StaleResponse, Leftover::Garbage]) } else { Leftover::None };
+    let after = if rng.chance(1, 6) { CloseKind::Eof } else { CloseKind::Stay };
+    ReqPlan { kind, body_len, nseg: rng.range(1, 6), pace: rng.chance(1, 2), after, leftover, act }
+}
+
+// ------------------------------------------------------------------------------------------------
+// workload
+// ------------------------------------------------------------------------------------------------
+
+fn seg_variants(len: usize, head_end: usize) -> Vec<(Vec<usize>, bool, &'static str)> {
+    let mut v = vec![(vec![], false, "one-segment")];
+    if len >= 2 {
+        v.push(((1..len).collect(), true, "all-1-byte-paced"));
+        v.push(((1..len).collect(), false, "all-1-byte-burst"));
+    }
+    if head_end > 0 && head_end < len {
+        v.push((vec![head_end], true, "head|body-paced"));
+    }
+    v
+}
+
+pub fn run(ctx: &Ctx, rep: &mut Reporter) {
+    if let Some(r) = &ctx.replay {
+        match r["phase"].as_str() {
+            Some("exchange") => {
+                let t: Tpl = serde_json::from_value(r["tpl"].clone()).expect("replay tpl");
+                let c: XCase = serde_json::from_value(r["case"].clone()).expect("replay case");
+                eval_exchange(&t, &c, rep);
+            }
+            Some("pool") => {
+                let sc: PoolScenario = serde_json::from_value(r["sc"].clone()).expect("replay scenario");
+                eval_pool(&sc, rep);
+            }
+            _ => rep.inconclusive("replay file has no known phase"),
+        }
+        rep.sig("replay-a");
+        rep.sig("replay-b");
+        return;
+    }
+    let miri = ctx.is_miri();
+    // debugging aid: C17_PHASES=AD runs only those phases
+    let phases = std::env::var("C17_PHASES").unwrap_or_else(|_| "ABCDE".into());
+
+    // ---- Phase A: close at every byte offset of every short template
+    let corpus = short_corpus();
+    let mut idx = 0u64;
+    let mut complete = true;
+    for t in &corpus {
+        if !self_check(t, rep) || !phases.contains('A') {
+            continue;
+        }
+        let len = t.wire().len();
+        for cut_at in 0..=len {
+            for close in [CloseKind::Eof, CloseKind::Reset, CloseKind::Stay] {
+                // Stay (peer silent, client must time out) only at a few offsets per region
+                if close == CloseKind::Stay && !(cut_at == len || cut_at % 7 == 3) {
+                    continue;
+                }
+                for (cuts, pace, seg_class) in seg_variants(cut_at, t.final_head_end) {
+                    idx += 1;
+                    if !ctx.mine(idx) || (miri && idx % 97 != 0) {
+                        continue;
+                    }
+                    if ctx.out_of_time() {
+                        complete = false;
+                        continue;
+                    }
+                    eval_exchange(t, &XCase { cut_at, close, cuts, pace, seg_class: seg_class.into() }, rep);
+                }
+            }
+        }
+    }
+    rep.exhaustive("close (EOF and reset) at every byte offset of every short template under 4 segmentations", complete && !miri);
+    rep.max("short_templates", corpus.len() as u64);
+    rep.sample("template", json!({"name": corpus[7].name, "wire": crate::util::esc(&corpus[7].wire()), "final_head_end": corpus[7].final_head_end, "body_done_at": corpus[7].body_done_at, "msg_end": corpus[7].msg_end}));
+
+    // ---- Phase B: every single cut (thorough: every cut pair) of every complete short response
+    let mut complete = true;
+    for t in &corpus {
+        if !phases.contains('B') {
+            continue;
+        }
+        let len = t.wire().len();
+        let close = if t.msg_end.is_some() { CloseKind::Stay } else { CloseKind::Eof };
+        for a in 1..len {
+            idx += 1;
+            if ctx.mine(idx) && !miri {
+                if ctx.out_of_time() {
+                    complete = false;
+                } else {
+                    eval_exchange(t, &XCase { cut_at: len, close, cuts: vec![a], pace: a % 2 == 0, seg_class: format!("cut@{}", t.region(a).trim_start_matches('^')) }, rep);
+                }
+            }
+            if ctx.thorough() {
+                for b in a + 1..len {
+                    idx += 1;
+                    if !ctx.mine(idx) || miri {
+                        continue;
+                    }
+                    if ctx.out_of_time() {
+                        complete = false;
+                        continue;
+                    }
+                    eval_exchange(
+                        t,
+                        &XCase { cut_at: len, close, cuts: vec![a, b], pace: (a + b) % 2 == 0, seg_class: format!("cut@{}+{}", t.region(a).trim_start_matches('^'), t.region(b).trim_start_matches('^')) },
+                        rep,
+                    );
+                }
+            }
+        }
+    }
+    rep.exhaustive(if ctx.thorough() { "all single cuts and cut pairs of every complete short response" } else { "all single cuts of every complete short response" }, complete && !miri);
+
+    // ---- Phase D: sequential request sequences on one authority (reuse discipline)
+    // D1: every ordered pair (first plan kind × after × leftover × client action) followed by a plain request
+    let kinds = [
+        RKind::Cl,
+        RKind::Chunked,
+        RKind::NoBody204,
+        RKind::Head,
+        RKind::ClConnClose,
+        RKind::ChunkedConnClose,
+        RKind::H10Cl,
+        RKind::H10ClKeepAlive,
+        RKind::Close10,
+        RKind::TruncCl,
+        RKind::TruncChunked,
+        RKind::Interim103Cl,
+    ];
+    let mut complete = true;
+    for kind in kinds {
+        if !phases.contains('D') {
+            continue;
+        }
+        for after in [CloseKind::Stay, CloseKind::Eof] {
+            for leftover in [Leftover::None, Leftover::StaleResponse, Leftover::Garbage] {
+                for act in [ClientAct::ReadAll, ClientAct::DropAtHead, ClientAct::DropAfter(1)] {
+                    for (nseg, pace) in [(1, false), (4, true)] {
+                        idx += 1;
+                        if !ctx.mine(idx) || (miri && idx % 53 != 0) {
+                            continue;
+                        }
+                        if ctx.out_of_time() {
+                            complete = false;
+                            continue;
+                        }
+                        let first = ReqPlan { kind, body_len: 600, nseg, pace, after, leftover, act };
+                        let plain = ReqPlan { kind: RKind::Cl, body_len: 20, nseg: 1, pace: false, after: CloseKind::Stay, leftover: Leftover::None, act: ClientAct::ReadAll };
+                        let sc = PoolScenario { limit: 1 + (idx % 2) as usize, concurrent: false, plans: vec![first, plain.clone(), plain], order_seed: 0 };
+                        eval_pool(&sc, rep);
+                    }
+                }
+            }
+        }
+    }
+    rep.exhaustive("every (response kind × peer-after × leftover × client action × segmentation) followed by two plain requests", complete && !miri);
+    // ---- Phase C: random large responses, random close offset, random segmentation
+    let nrand = if !phases.contains('C') { 0 } else if miri { 3 } else { ctx.share(40_000, 2_400_000) };
+    let past = |pct: u64| ctx.start.elapsed().as_secs() * 100 >= ctx.budget_s * pct;
+    for k in 0..nrand {
+        if past(55) {
+            rep.count("random-phase-cut-short-by-budget", 1);
+            break;
+        }
+        let mut rng = Rng::derive(ctx.seed, 171, k * ctx.nshards + ctx.shard);
+        let t = random_tpl(&mut rng);
+        let len = t.wire().len();
+        // aim half of the closes at structurally interesting offsets
+        let cut_at = match rng.below(6) {
+            0 => len,
+            1 => rng.range(0, t.final_head_end),
+            2 => {
+                // just before / at a part boundary
+                let mut off = 0;
+                let mut bounds = vec![];
+                for p in &t.parts {
+                    off += p.bytes.len();
+                    bounds.push(off);
+                }
+                let b = *rng.pick(&bounds);
+                b.saturating_sub(rng.below(3)).min(len)
+            }
+            3 => len - rng.below(8.min(len)),
+            _ => rng.range(0, len),
+        };
+        let close = match rng.below(8) {
+            0 => CloseKind::Stay,
+            1 | 2 => CloseKind::Reset,
+            _ => CloseKind::Eof,
+        };
+        let (cuts, seg_class) = match rng.below(4) {
+            0 => (vec![], "one-segment"),
+            1 => (rng.cuts(cut_at, 4), "few-cuts"),
+            2 => (rng.cuts(cut_at, 60), "many-cuts"),
+            _ => {
+                // MTU-like
+                let m = rng.range(500, 1500);
+                ((1..cut_at / m + 1).map(|i| i * m).filter(|&c| c < cut_at).collect(), "mtu")
+            }
+        };
+        eval_exchange(&t, &XCase { cut_at, close, cuts, pace: rng.chance(1, 2), seg_class: seg_class.into() }, rep);
+    }
+
+    // D2: random sequences of 2–6 requests
+    let nseq = if !phases.contains('D') { 0 } else if miri { 2 } else { ctx.share(16_000, 900_000) };
+    for k in 0..nseq {
+        if past(80) {
+            rep.count("random-phase-cut-short-by-budget", 1);
+            break;
+        }
+        let mut rng = Rng::derive(ctx.seed, 172, k * ctx.nshards + ctx.shard);
+        let n = rng.range(2, 6);
+        let plans = (0..n).map(|_| random_plan(&mut rng, false)).collect();
+        eval_pool(&PoolScenario { limit: rng.range(1, 3), concurrent: false, plans, order_seed: 0 }, rep);
+    }
+
+    // ---- Phase E: concurrency 2–4× the limit against a gated peer
+    let nconc = if !phases.contains('E') { 0 } else if miri { 2 } else { ctx.share(8_000, 450_000) };
+    for k in 0..nconc {
+        if past(100) {
+            rep.count("random-phase-cut-short-by-budget", 1);
+            break;
+        }
+        let mut rng = Rng::derive(ctx.seed, 173, k * ctx.nshards + ctx.shard);
+        let limit = rng.range(1, 4);
+        let n = limit * rng.range(2, 4) + rng.below(2);
+        let plans = (0..n).map(|_| random_plan(&mut rng, true)).collect();
+        eval_pool(&PoolScenario { limit, concurrent: true, plans, order_seed: rng.next() }, rep);
+    }
 }
